@@ -159,3 +159,216 @@ func c15R11(p *Prog, r *Report, fns []*ssa.Function) {
 		r.OK("C15.R11", "reflection accessors", "-", "no call of (reflect.Value).Int/Uint/Float in the package")
 	}
 }
+
+// C15.R12: the size accessors fold the payload shape the same way.  Frames() divides the payload
+// by word length x (channel count derived from shape.Sizes) and ChannelInfo() reports the channel
+// count derived from shape.Sizes; the consumer multiplies the two to know how many samples the
+// payload holds, so the two must compute the same function of the dimensions.  The rule reads, in
+// each accessor (and the module helpers it calls), how elements of Sizes are selected (every
+// element of a 0..len loop, or fixed positions) and how they are combined (product with an
+// accumulator that starts at 1, only elements > 0 or all), and compares these signatures; the
+// accessor pair is the instance table of the rule (frozen from the anchors).
+func c15R12(p *Prog, r *Report, fns []*ssa.Function) {
+	pair := []string{"Frames", "ChannelInfo"}
+	byName := map[string]*ssa.Function{}
+	for _, fn := range fns {
+		if fn.Signature.Recv() != nil && typeName(fn.Signature.Recv().Type()) == "Packet" {
+			byName[fn.Name()] = fn
+		}
+	}
+	isSizes := func(v ssa.Value) bool {
+		for i := 0; i < 4; i++ {
+			switch x := v.(type) {
+			case *ssa.Slice:
+				v = x.X
+				continue
+			case *ssa.UnOp:
+				if x.Op == token.MUL {
+					_, f, _, ok := FieldOf(x)
+					return ok && f == "Sizes"
+				}
+			}
+			break
+		}
+		return false
+	}
+	sig := func(fn *ssa.Function) (string, string, bool) {
+		var parts []string
+		known := true
+		where := ""
+		InstrsDeep(fn, 2, func(d DeepInstr) {
+			ia, ok := d.In.(*ssa.IndexAddr)
+			if !ok || !isSizes(ia.X) {
+				return
+			}
+			if where == "" {
+				where = p.InstrPos(ia)
+			}
+			sel := ""
+			idx := stripConv(ia.Index)
+			if k, isC := constInt(idx); isC {
+				sel = fmt.Sprintf("element %d", k)
+			} else if c15CountsUp(idx) && c15BoundedByLen(ia, idx, isSizes) {
+				sel = "every element"
+			} else {
+				known = false
+				sel = "?"
+			}
+			// how the element is used
+			comb := ""
+			var elems []ssa.Value
+			for _, u := range *ia.Referrers() {
+				if ld, isLd := u.(*ssa.UnOp); isLd && ld.Op == token.MUL {
+					elems = append(elems, ld)
+					for _, u2 := range *ld.Referrers() {
+						if cv, isCv := u2.(*ssa.Convert); isCv {
+							elems = append(elems, cv)
+						}
+					}
+				}
+			}
+			isElem := func(v ssa.Value) bool {
+				for _, e := range elems {
+					if e == v {
+						return true
+					}
+				}
+				return false
+			}
+			for _, e := range elems {
+				for _, u := range *e.Referrers() {
+					bo, isB := u.(*ssa.BinOp)
+					if !isB || bo.Op != token.MUL {
+						continue
+					}
+					other := bo.X
+					if other == e {
+						other = bo.Y
+					}
+					if ph, isPh := other.(*ssa.Phi); isPh {
+						one := false
+						for _, ed := range ph.Edges {
+							if k, isC := constInt(ed); isC && k == 1 {
+								one = true
+							}
+						}
+						if one {
+							comb = "product"
+							for _, cd := range controlDependencesClosure(bo.Block()) {
+								c, isC := cd.If.Cond.(*ssa.BinOp)
+								if !isC {
+									continue
+								}
+								x, y, op := c.X, c.Y, c.Op
+								if isElem(y) { // constant on the left: mirror
+									x, y = y, x
+									op = map[token.Token]token.Token{token.LSS: token.GTR, token.GTR: token.LSS, token.LEQ: token.GEQ, token.GEQ: token.LEQ, token.EQL: token.EQL, token.NEQ: token.NEQ}[op]
+								}
+								if !isElem(x) {
+									continue
+								}
+								k, isK := constInt(y)
+								switch {
+								case isK && ((op == token.GTR && k == 0) || (op == token.GEQ && k == 1)) && cd.Branch == 0,
+									isK && ((op == token.LEQ && k == 0) || (op == token.LSS && k == 1)) && cd.Branch == 1:
+									comb = "product of those > 0"
+								default:
+									known = false
+									comb = "product of those selected by another test"
+								}
+							}
+						}
+					}
+				}
+			}
+			if comb == "" {
+				// the element taken as it is (possibly under a sign test)
+				comb = "value"
+			}
+			parts = append(parts, comb+" over "+sel)
+		})
+		sort.Strings(parts)
+		return strings.Join(parts, " + "), where, known
+	}
+	var sigs, wheres []string
+	for _, name := range pair {
+		fn := byName[name]
+		if fn == nil {
+			r.Unk("C15.R12", "the size accessors fold the shape alike", "-", "no method "+name+" of Packet: the accessor pair of this rule (frame count, channel info) is not found under the names of the anchors")
+			return
+		}
+		r.Fn(FuncName(fn))
+		s, w, known := sig(fn)
+		if s == "" || !known {
+			r.Unk("C15.R12", "the size accessors fold the shape alike", p.Pos(fn.Pos()), FuncName(fn)+" reads shape.Sizes in a way that is not recognised ("+s+"): whether it agrees with its sibling is not decided")
+			return
+		}
+		sigs = append(sigs, s)
+		wheres = append(wheres, w)
+	}
+	r.Check(sigs[0] == sigs[1], "C15.R12", "the size accessors fold the shape alike", wheres[1], "Frames and ChannelInfo both compute: "+sigs[0],
+		fmt.Sprintf("Frames derives its channel count from shape.Sizes as [%s] (at %s) but ChannelInfo as [%s]: for a shape where the two differ (more than one dimension greater than 1), Frames()*nchan is no longer the number of samples in the payload - the accessors report mutually inconsistent sizes, and the group logic that sizes its buffers from one and counts from the other overruns", sigs[0], wheres[0], sigs[1]))
+}
+
+// c15CountsUp: idx is a loop counter that starts at 0 and moves by +1 (either `phi[0, phi+1]` or the
+// rotated form of a range loop, `phi[-1, idx] + 1`).
+func c15CountsUp(idx ssa.Value) bool {
+	if ph, ok := idx.(*ssa.Phi); ok && len(ph.Edges) >= 2 {
+		zero, step := 0, 0
+		for _, e := range ph.Edges {
+			if k, isC := constInt(e); isC && k == 0 {
+				zero++
+			} else if bo, isB := e.(*ssa.BinOp); isB && bo.Op == token.ADD && bo.X == ssa.Value(ph) {
+				if k, isC := constInt(bo.Y); isC && k == 1 {
+					step++
+				}
+			}
+		}
+		return zero == 1 && zero+step == len(ph.Edges)
+	}
+	if bo, ok := idx.(*ssa.BinOp); ok && bo.Op == token.ADD {
+		k, isC := constInt(bo.Y)
+		ph, isPh := bo.X.(*ssa.Phi)
+		if !isC || k != 1 || !isPh || len(ph.Edges) < 2 {
+			return false
+		}
+		init, back := 0, 0
+		for _, e := range ph.Edges {
+			if k, isC := constInt(e); isC && k == -1 {
+				init++
+			} else if e == ssa.Value(bo) {
+				back++
+			}
+		}
+		return init == 1 && init+back == len(ph.Edges)
+	}
+	return false
+}
+
+// c15BoundedByLen: the access is under `idx < len(Sizes)` and nothing else leaves the loop early.
+func c15BoundedByLen(ia *ssa.IndexAddr, idx ssa.Value, isSizes func(ssa.Value) bool) bool {
+	for _, ct := range controllingIfs(ia.Block()) {
+		c, ok := ct.If.Cond.(*ssa.BinOp)
+		if !ok || c.Op != token.LSS || ct.Branch != 0 || stripConv(c.X) != idx {
+			continue
+		}
+		if call, isCall := c.Y.(*ssa.Call); isCall {
+			if b, isB := call.Call.Value.(*ssa.Builtin); isB && b.Name() == "len" && isSizes(call.Call.Args[0]) {
+				// no other exit from the loop
+				h := ct.If.Block()
+				for _, b := range h.Parent().Blocks {
+					if b == h || !naturalLoopContains(h, b) {
+						continue
+					}
+					for _, sc := range b.Succs {
+						if !naturalLoopContains(h, sc) {
+							return false
+						}
+					}
+				}
+				return true
+			}
+		}
+	}
+	return false
+}
